@@ -862,6 +862,20 @@ class AI:
             return ("closure", t["key"], ())
         if "str" in k:
             return ("str", k["str"])
+        if "pbytes" in k and t["k"] == "ref":
+            # `&Status::PASS` as a constant pointer: one byte holding the discriminant of a field-less enum
+            inner = ty.strip_refs()
+            a = inner.adt() if inner is not None else None
+            if a and a["kind"] == "enum" and all(not var["fields"] for var in a["variants"]) and len(k["pbytes"]) == 2:
+                try:
+                    d = int(k["pbytes"], 16)
+                except ValueError:
+                    d = None
+                for vi, var in enumerate(a["variants"]):
+                    if var["discr"] == d:
+                        cname = "constptr:%s:%d" % (a["path"], vi)
+                        st.ext[cname] = ("enum", a["path"], vi, ())
+                        return ("ref", ("X", cname), ())
         if "pbytes" in k:
             tpl = M.fmt_template(k["pbytes"])
             if tpl is not None:
@@ -1401,6 +1415,29 @@ class AI:
                         break
                 if outs is not None:
                     return outs
+        if path in ("std::result::Result::map", "std::option::Option::map", "std::result::Result::and_then", "std::option::Option::and_then") and len(args) == 2:
+            # the function is not an interpretable closure (a fn item such as `Ordering::is_lt`, or the rule did not opt in): the
+            # Err / None side passes through unchanged, the other side is some value of the mapped type
+            ty = self.operand_ty(frame, term["args"][0])
+            alts = self.fork_enum(st, args[0], ty)
+            if alts is not None:
+                outs = []
+                for s2, ev in alts:
+                    is_res = ev[1] == RESULT
+                    passthrough = (is_res and ev[2] == 1) or (ev[1] == OPTION and ev[2] == 0)
+                    if passthrough:
+                        outs.append((s2, ev))
+                    elif path.endswith("::map"):
+                        outs.append((s2, ("enum", ev[1], ev[2], (self.sym(s2, self.site(s2, ":mapped")),))))
+                    else:
+                        outs.append((s2, self.sym(s2, self.site(s2, ":and_then"))))
+                return outs
+        if path == "core::str::<impl str>::strip_prefix" and len(args) == 2:
+            a0, a1 = self.deref_val(st, args[0]), self.deref_val(st, args[1])
+            if a0 is not None and a1 is not None and a0[0] == "str" and a1[0] == "str":
+                if a0[1].startswith(a1[1]):
+                    return [(st, ("enum", OPTION, 1, (("str", a0[1][len(a1[1]):]),)))]
+                return [(st, ("enum", OPTION, 0, ()))]
         if decl == "std::clone::Clone::clone" and args:
             v = self.resolve(st, args[0])
             if v[0] == "ref":
